@@ -178,5 +178,6 @@ class annulus_follows_assignment:
             # bounding_box reports), same values
             'mask_is_function_of_current_parameters': lambda result, i, j:
                 result[3].bbox == result[4].bbox and result[3].bbox == result[5] and (
-                    (not (0 <= i and i < result[4].bbox.ixmax - result[4].bbox.ixmin and 0 <= j and j < result[4].bbox.iymax - result[4].bbox.iymin))
+                    (not (0 <= i and i < result[4].bbox.ixmax - result[4].bbox.ixmin and 0 <= j and j < result[4].bbox.iymax - result[4].bbox.iymin
+                          and i < result[3].bbox.ixmax - result[3].bbox.ixmin and j < result[3].bbox.iymax - result[3].bbox.iymin))
                     or result[3].data[j, i] == result[4].data[j, i])}
